@@ -129,6 +129,17 @@ Section Glue.
   Definition glue_run (raw : bool) (ce : list N) (abort : option gerr) (pieces : list (list N)) : gres :=
     glue_finish abort (glue_loop (dinit zst (select_kind raw ce)) pieces []).
 
+  (* ---- decompression.gzip_uncompress(data, truncated): SimpleGzipDecompressor on
+     the whole buffer, flushed unless [truncated] (document/sitemap.py calls it with
+     truncated=True on a peeked prefix of the body and ignores zlib.error) ---- *)
+  Definition gzip_uncompress (data : list N) (truncated : bool) : option (list N) :=
+    match zfeed zst zstep (zinit W31) data with
+    | None => None
+    | Some (z, o) =>
+        if truncated then Some o
+        else match zflush zst zeof zfl z with None => None | Some f => Some (o ++ f) end
+    end.
+
   (* ---- the pieces the three readers deliver, over Lib/Conn ---- *)
   Definition read_size : nat := 4096.
 
@@ -242,6 +253,9 @@ Definition tab_glue (t31 t15 traw : ztab) (raw : bool) (ce : list N) (abort : op
 Definition tab_read_body (t31 t15 traw : ztab) (o : oracle) (raw : bool) (ce : list N)
            (st : strategy) (wire : list N) : gres :=
   read_body tst (tab_init t31 t15 traw) tab_step t_eof (fun _ => []) o raw ce st wire.
+
+Definition tab_gzip_uncompress (t31 : ztab) (data : list N) (truncated : bool) : option (list N) :=
+  gzip_uncompress tst (tab_init t31 t31 t31) tab_step t_eof (fun _ => []) data truncated.
 
 Definition tab_body_pieces (o : oracle) (st : strategy) (wire : list N) : list (list N) * option gerr :=
   body_pieces o st (mkConn wire false).
